@@ -465,6 +465,8 @@ pub fn run(tier: &str) -> Report {
 pub fn has_const_cond_jump(text: &str) -> bool {
     for line in text.lines() {
         let t = line.trim();
+        // (--show-instr-offsets prefixes statements with `/* (0xNN) 0xNN */`)
+        let t = if t.starts_with("/*") { t.find("*/").map(|i| t[i + 2..].trim()).unwrap_or(t) } else { t };
         let t = t.strip_prefix("} else ").unwrap_or(t);
         let rest = if let Some(r) = t.strip_prefix("if (") { r } else if let Some(r) = t.strip_prefix("unless (") { r } else if let Some(r) = t.strip_prefix("while (") { r } else if let Some(r) = t.strip_prefix("} while (") { r } else { continue };
         // the same instruction printed as a jump or, with block recovery, as the head of a block
